@@ -1308,16 +1308,16 @@ Proof.
 Qed.
 
 (** the algebraic operations (each mutates the object; the value it then has is modelled here) *)
-Theorem cn_mul_is q v r c D : cn_is v r c D -> cn_is (cn_mul q v) r c (mscale q D).
+Theorem cn_mul_is q v r c D : cn_shared v = false -> cn_is v r c D -> cn_is (cn_mul q v) r c (mscale q D).
 Proof.
-  intros ((Wb & Wf & E) & Hr & Hc & ED). unfold cn_is, cn_wfv, cn_dense, cn_ncol in *; simpl.
+  intros Hsh ((Wb & Wf & E) & Hr & Hc & ED). unfold cn_is, cn_wfv, cn_dense, cn_ncol, cn_mul in *; simpl. rewrite Hsh.
   repeat split; auto.
   - apply swf_smap; exact Wb.
   - unfold sscale. rewrite smap_nrow. exact Hr.
   - rewrite dense_sscale. rewrite mat_mul_mscale_l by apply (wf_mat_rows _ _ _ (dense_wf (cn_fwd v))). rewrite ED. reflexivity.
 Qed.
-Theorem cn_neg_is v r c D : cn_is v r c D -> cn_is (cn_neg v) r c (mneg D).
-Proof. intros H. eapply cn_is_meq; [symmetry; apply mneg_mscale|]. exact (cn_mul_is (-(1)) v r c D H). Qed.
+Theorem cn_neg_is v r c D : cn_shared v = false -> cn_is v r c D -> cn_is (cn_neg v) r c (mneg D).
+Proof. intros Hsh H. eapply cn_is_meq; [symmetry; apply mneg_mscale|]. exact (cn_mul_is (-(1)) v r c D Hsh H). Qed.
 Theorem cn_left_is M v r c D : cn_is v r c D -> swf M -> s_ncol M = r ->
   cn_is (cn_left M v) (s_nrow M) c (mat_mul c (dense M) D).
 Proof.
@@ -1353,49 +1353,64 @@ Proof.
   rewrite E. reflexivity.
 Qed.
 
-Theorem ce_denotes e : ce_wf e -> cn_is (cn_eval e) (fst (ce_shape e)) (snd (ce_shape e)) (ce_dense e).
+Lemma cn_eval_shared e : cn_shared (cn_eval e) = ce_shared e.
+Proof. induction e; simpl; auto. Qed.
+
+Theorem ce_denotes e : ce_wf e -> ce_unshared_scaling e ->
+  cn_is (cn_eval e) (fst (ce_shape e)) (snd (ce_shape e)) (ce_dense e).
 Proof.
-  induction e as [a nrm | e IH | q e IH | M e IH | e IH M | e IH | e IH]; simpl; intros H.
+  induction e as [a nrm | e IH | q e IH | M e IH | e IH M | e IH | e IH]; simpl; intros H HU.
   - destruct H as [W HN]. apply coneighbor_base_is; assumption.
-  - apply cn_neg_is; auto.
-  - apply cn_mul_is; auto.
+  - destruct HU as [Hsh HU]. apply cn_neg_is; [rewrite cn_eval_shared; exact Hsh | auto].
+  - destruct HU as [Hsh HU]. apply cn_mul_is; [rewrite cn_eval_shared; exact Hsh | auto].
   - destruct H as (H1 & W & E). apply (cn_left_is M _ (fst (ce_shape e))); auto.
   - destruct H as (H1 & W & E). apply (cn_right_is _ M (fst (ce_shape e)) (snd (ce_shape e))); auto.
   - apply cn_transpose_is; auto.
-  - apply IH; exact H.
+  - apply IH; assumption.
 Qed.
 
 (** with square factors only, the recorded shape stays right *)
-Lemma ce_square_shape e : ce_wf e -> ce_square_factors e ->
+Lemma ce_square_shape e : ce_wf e -> ce_unshared_scaling e -> ce_square_factors e ->
   exists n, ce_shape e = (n, n) /\ cn_shape (cn_eval e) = (n, n).
 Proof.
-  induction e as [a nrm | e IH | q e IH | M e IH | e IH M | e IH | e IH]; simpl; intros H HS.
+  induction e as [a nrm | e IH | q e IH | M e IH | e IH M | e IH | e IH]; simpl; intros H HU HS.
   - exists (s_nrow a). split; reflexivity.
-  - apply IH; assumption.
-  - apply IH; assumption.
-  - destruct H as (H1 & W & E). destruct HS as (HS & Hsq). destruct (IH H1 HS) as (n & E1 & E2).
+  - destruct HU as [_ HU]. apply IH; assumption.
+  - destruct HU as [_ HU]. apply IH; assumption.
+  - destruct H as (H1 & W & E). destruct HS as (HS & Hsq). destruct (IH H1 HU HS) as (n & E1 & E2).
     exists n. rewrite E1 in *. simpl in *. split; [f_equal; lia | exact E2].
-  - destruct H as (H1 & W & E). destruct HS as (HS & Hsq). destruct (IH H1 HS) as (n & E1 & E2).
+  - destruct H as (H1 & W & E). destruct HS as (HS & Hsq). destruct (IH H1 HU HS) as (n & E1 & E2).
     exists n. rewrite E1 in *. simpl in *. split; [f_equal; lia | exact E2].
-  - destruct (IH H HS) as (n & E1 & E2). exists n. rewrite E1. simpl. split; [reflexivity|].
-    destruct (ce_denotes e H) as (_ & Hr & _). rewrite E1 in Hr. simpl in Hr. rewrite Hr. reflexivity.
+  - destruct (IH H HU HS) as (n & E1 & E2). exists n. rewrite E1. simpl. split; [reflexivity|].
+    destruct (ce_denotes e H HU) as (_ & Hr & _). rewrite E1 in Hr. simpl in Hr. rewrite Hr. reflexivity.
   - apply IH; assumption.
 Qed.
 
-Theorem coneighbor_dot_denotes e x : ce_wf e -> ce_square_factors e -> length x = snd (ce_shape e) ->
+Theorem coneighbor_dot_denotes e x : ce_wf e -> ce_square_factors e -> ce_unshared_scaling e -> length x = snd (ce_shape e) ->
   exists y, cn_dot (cn_eval e) x = Ok y /\ y =v mat_vec (ce_dense e) x.
 Proof.
-  intros H HS Hx. destruct (ce_denotes e H) as (Hv & Hr & Hc & ED). destruct (ce_square_shape e H HS) as (n & E1 & E2).
+  intros H HS HU Hx. destruct (ce_denotes e H HU) as (Hv & Hr & Hc & ED). destruct (ce_square_shape e H HU HS) as (n & E1 & E2).
   rewrite E1 in *. simpl in *. exists (cn_matvec (cn_eval e) x). split.
   - unfold cn_dot. rewrite Hc, Hx, Nat.eqb_refl. apply lo_dot_ok; rewrite E2; simpl; [exact Hx|].
     unfold cn_matvec. rewrite smv_length. exact Hr.
   - rewrite coneighbor_matvec_denotes by (auto; unfold cn_ncol; lia). rewrite ED. reflexivity.
 Qed.
-Theorem coneighbor_expr_matmat_denotes k e X : ce_wf e -> wf_mat (snd (ce_shape e)) k X ->
+Theorem coneighbor_expr_matmat_denotes k e X : ce_wf e -> ce_unshared_scaling e -> wf_mat (snd (ce_shape e)) k X ->
   cn_matmat k (cn_eval e) X =m mat_mul k (ce_dense e) X.
 Proof.
-  intros H WX. destruct (ce_denotes e H) as (Hv & Hr & Hc & ED).
+  intros H HU WX. destruct (ce_denotes e H HU) as (Hv & Hr & Hc & ED).
   rewrite coneighbor_matmat_denotes by (auto; unfold cn_ncol; rewrite Hc; exact WX). rewrite ED. reflexivity.
+Qed.
+
+(** __neg__ / __mul__ on CoNeighbor(normalized=False): backward *= c also scales forward (same buffer), so -op = op *)
+Theorem coneighbor_shared_scaling_refuted :
+  exists a x y, swf a /\ snonneg a /\ length x = s_nrow a /\
+    cn_dot (cn_eval (CNeg (CBase a false))) x = Ok y /\ ~ (y =v mat_vec (ce_dense (CNeg (CBase a false))) x).
+Proof.
+  exists {| s_ncol := 1; s_rows := [[(0%nat, 2)]] |}, [1], [4].
+  split; [repeat constructor; unfold Qle; simpl; lia|]. split; [repeat constructor; unfold Qle; simpl; lia|].
+  split; [reflexivity|]. split; [vm_compute; reflexivity|].
+  intros H. apply (veq_nthq _ _ 0) in H. vm_compute in H. discriminate.
 Qed.
 
 (** D26: left_sparse_dot with a 2 x 3 factor keeps shape (3, 3): the next dot raises *)
@@ -1687,7 +1702,7 @@ Proof.
   - apply sparselr_dot_denotes; assumption.
   - apply normalizer_dot_denotes; assumption.
   - apply laplacian_dot_denotes; assumption.
-  - apply coneighbor_dot_denotes; assumption.
+  - destruct HS as [HS1 HS2]. apply coneighbor_dot_denotes; assumption.
   - apply polynome_dot_denotes; assumption.
 Qed.
 Theorem operator_matmat_denotes sqrtf k o X : Proper (Qeq ==> Qeq) sqrtf -> op_wf o -> op_sound_site o ->
@@ -1698,7 +1713,7 @@ Proof.
   - destruct e as [a reg | e]; simpl in *; [|discriminate]. destruct HW as (W & Hc & Hreg).
     apply normalizer_matmat_denotes; assumption.
   - apply laplacian_expr_matmat_denotes; assumption.
-  - apply coneighbor_expr_matmat_denotes; assumption.
+  - destruct HS as [HS1 HS2]. apply coneighbor_expr_matmat_denotes; assumption.
   - apply polynome_expr_matmat_denotes; assumption.
 Qed.
 (* ------------------------------------------------------------------------------------------- *)
